@@ -1159,7 +1159,7 @@ def run(ctx):
         "kernel checker theory.check_proof for the theorems returned by CongClosureHOL.explain (its soundness is property C01/C02)"]
     ctx.assumptions += [
         "the Lean model reads dictionaries that cannot miss with a default instead of KeyError",
-        "path_to_root / explain recursion carry fuel in the model; running out is an error outcome (Err.fuel from explain, State.stuck after a merge, reported by the driver as (err fuel)), never a shortened path or an answer"]
+        "path_to_root / explain recursion carry fuel in the model (len(proof_forest) steps / len(proof_forest)+1 levels); proof_forest_wellformed and explain_total prove that the bounds are never hit in a reachable state"]
     from prover import congc
     corpus = load_corpus(ctx)
     ctx.log("lean obligations audited")
@@ -1267,23 +1267,28 @@ def replay(ctx, rp):
 
 MANIFEST = {
     "text": "Lean theorems about an executable model of prover/congc.py CongClosure, for every sequence of add_var/merge calls (test and "
-            "explain do not change the structure, so every interleaving is covered): test_sound and test_complete (test answers True exactly "
-            "for the congruence closure of the merged equations, on entered constants; test_defined_iff_entered: KeyError exactly for "
-            "constants never entered), order_independent (same answers for any two sequences that merge the same equations up to symmetry and enter the same constants: any order, repetitions, flipped orientation, terms added beforehand or not; order_independent_perm is the same-members corollary) and renaming_invariant "
-            "(independent of how constants are numbered), pending_empty_after_merge (_propagate terminates within the modelled bound), "
-            "explain_uses_inputs (every label of a returned explanation is a merged equation / a pair of merged application equations with "
-            "congruent arguments, and the listed equations alone entail every explained pair). The model is tied to the code by differential "
-            "runs on generated operation sequences (partition induced by test after every operation, every test/explain result); the "
-            "implementation's own answers are judged by a naive fixpoint closure (both directions), explanations by re-deriving the equality "
-            "from their labels alone, order independence by running permutations; CongClosureHOL (typed curried terms) is run for real: "
-            "test against the naive closure on terms and against the model, explain through theory.check_proof (conclusion is the queried "
-            "equality, hypotheses and gaps are merged equations and entail it).",
+            "explain do not change the core structure, so every interleaving is covered): test_sound / test_complete (test answers True "
+            "exactly for the congruence closure of the merged equations; test_defined_iff_entered: KeyError exactly for constants never "
+            "entered), order_independent (+ _perm corollary) and renaming_invariant, pending_empty_after_merge (_propagate terminates within "
+            "the modelled bound), proof_forest_wellformed (keys, parents stay in the class, acyclic, one root per class, the walk bound "
+            "len(proof_forest) is never hit), explain_total (explain returns for every pair test reports equal: no KeyError, no assert, "
+            "recursion at most len(proof_forest)+1 deep -- time-stamp argument), explain_uses_inputs, explain_closed (the dictionary is "
+            "closed for its consumer), explain_complete_proof (re-running the verified decision procedure specTest on exactly the returned "
+            "equations derives the equality; specTest_iff). HOL wrapper: HolModel.lean models CongClosureHOL's term bookkeeping (add_const, "
+            "add_term with currying and fresh constants per subterm, merge, test); hol_tables_consistent, hol_test_sound (test True implies "
+            "derivable by congruence closure on terms, hence true in every model of the merged equations) and hol_test_complete (entailed "
+            "implies test True, whatever was entered before). The models are tied to the code by differential runs: core -- partition induced "
+            "by test after every operation, every test/explain result; wrapper -- the internal constant table `index` and every test answer "
+            "after every call. The implementation's own answers are judged by a naive fixpoint closure (both directions), explanations by "
+            "re-deriving the equality from their labels alone and by closedness, order independence by running permutations; "
+            "CongClosureHOL.explain goes through theory.check_proof (conclusion is exactly the queried equality, hypotheses and gaps are "
+            "merged equations and entail it).",
     "note": "Trusted: Lean kernel, propext/Classical.choice/Quot.sound, the harness generators/flattener/naive closure, theory.check_proof for "
-            "the HOL wrapper's theorems. Not proved in Lean: that explain never fails on equal constants (assertion / recursion bound; the "
-            "harness reports explain failing on a valid equality as a violation), that dictionary reads inside merge cannot raise KeyError "
-            "(model uses defaults; a KeyError in the code shows up as a disagreement and as a failed merge). The HOL wrapper (add_term, "
-            "proof-term assembly) is not modelled in Lean: order independence at the level of terms is Lean-proved only up to the flattening "
-            "(same core operations in any order, any injective renaming) and otherwise checked by the perm stream; ematch is outside the property.",
+            "the HOL wrapper's theorems. Not proved in Lean: that dictionary reads inside merge cannot raise KeyError (the model uses "
+            "defaults; a KeyError in the code shows up as a disagreement and as a failed merge). Not modelled: the proof-term assembly of "
+            "CongClosureHOL.explain (get_proofterm, the table pts) -- judged by the real checker on every generated history; abstractions "
+            "and bound variables in add_term; ematch (outside the property). HolModel carries a ghost log of the core calls (not in the Python) "
+            "to connect the wrapper to the core theorems.",
     "design_ref": "DESIGN.md 4/C17",
 }
 FINDINGS = [
